@@ -10,6 +10,7 @@ import (
 	"encoding/json"
 	"fmt"
 	"math/rand"
+	"os"
 	"runtime"
 	"runtime/debug"
 	"strings"
@@ -115,6 +116,12 @@ func runCase(c jcase, rep *batch.Report) batch.CaseResult {
 		res.Inconclusive = "setup ring did not stabilise: " + cv.Diff
 		return res
 	}
+	// from here on only the join's own protocol steps change pointers (periodic rounds are parked),
+	// so what a probe sees at a hook is exactly what the step left behind
+	if !lab.FreezePeriodic(20 * time.Second) {
+		res.Inconclusive = "periodic tasks could not be parked within 20 s"
+		return res
+	}
 	joiner, _ := lab.Spawn(newID(), ringlab.Memory)
 	ids := []uint64{}
 	for _, m := range members {
@@ -164,6 +171,19 @@ func runCase(c jcase, rep *batch.Report) batch.CaseResult {
 		if !hit.CompareAndSwap(false, true) {
 			return
 		}
+		if who == "pred" {
+			// is the predecessor in the state the probe is after: successor already the joiner, finger 1 not yet?
+			vp := lab.Member(predOfJoiner).Node.VerifPointers()
+			stale := len(vp.Successors) > 0 && vp.Successors[0] == joiner.ID && vp.FingersPresent[0] && vp.Fingers[0] != joiner.ID
+			if stale {
+				rep.Count("pred_probed_with_successor_joiner_and_finger1_old", 1)
+			}
+			if os.Getenv("VERIF_C09_DEBUG") != "" {
+				df, _ := os.OpenFile(os.Getenv("VERIF_C09_DEBUG"), os.O_APPEND|os.O_CREATE|os.O_WRONLY, 0644)
+				defer df.Close()
+				fmt.Fprintf(df, "C09DEBUG at=%d %s point=%s N=%d pred=%d joiner=%d succ=%d pred.succs=%v finger1=%d stale=%v fingers=%v state=%v\n", time.Now().UnixMicro()%100000000, c.Name, point, c.N, predOfJoiner, joiner.ID, succOfJoiner, vp.Successors, vp.Fingers[0], stale, sortU(uniq(vp.Fingers)), lab.Member(predOfJoiner).Node.VerifState())
+			}
+		}
 		// the join is blocked here while the probes run in other goroutines
 		keys := []uint64{0, M - 1, joiner.ID, (joiner.ID + 1) % M, (joiner.ID + M - 1) % M, rng.Uint64() % M, rng.Uint64() % M, rng.Uint64() % M}
 		for _, id := range ids {
@@ -188,7 +208,17 @@ func runCase(c jcase, rep *batch.Report) batch.CaseResult {
 				wg.Add(1)
 				go func(t *ringlab.Member, k uint64) {
 					defer wg.Done()
+					t0 := time.Now()
+					f1before := uint64(0)
+					if os.Getenv("VERIF_C09_DEBUG") != "" {
+						f1before = t.Node.VerifPointers().Fingers[0]
+					}
 					v, err := t.Node.FindSuccessor(k)
+					if os.Getenv("VERIF_C09_DEBUG") != "" && t.ID == predOfJoiner && who == "pred" {
+						df, _ := os.OpenFile(os.Getenv("VERIF_C09_DEBUG"), os.O_APPEND|os.O_CREATE|os.O_WRONLY, 0644)
+						fmt.Fprintf(df, "C09LOOKUP %s pred=%d key=%d -> %v %v took=%v at=%d f1before=%d finger1now=%d\n", c.Name, t.ID, k, v != nil, err, time.Since(t0), t0.UnixMicro()%100000000, f1before, t.Node.VerifPointers().Fingers[0])
+						df.Close()
+					}
 					atomic.AddInt64(&probes, 1)
 					if err != nil {
 						atomic.AddInt64(&errs, 1)
@@ -294,4 +324,16 @@ func onStack(frag string) bool {
 	buf := make([]byte, 16<<10)
 	n := runtime.Stack(buf, false)
 	return strings.Contains(string(buf[:n]), frag)
+}
+
+func uniq(a []uint64) []uint64 {
+	m := map[uint64]bool{}
+	var o []uint64
+	for _, x := range a {
+		if !m[x] {
+			m[x] = true
+			o = append(o, x)
+		}
+	}
+	return o
 }
